@@ -204,7 +204,7 @@ def observables(ctx, sc, label, case):
             k = "race|late_ending_write"
         elif key == "end_replication_lost" and "race|end_replication_wakeup_cleared" in sig:
             k = "race|end_replication_wakeup_cleared"
-        elif "race|late_stopping_write" in sig and key in ("stuck_state", "ended_not_final"):
+        elif "race|late_stopping_write" in sig and (key in ("stuck_state", "ended_not_final") or (key == "end_replication_lost" and st["rep"] == "ENDED" and "w" in st["done"] and st["rs"] == "STOPPING")):
             k = "race|late_stopping_write"
         elif "race|start_before_wakeup_cleared" in sig and key in ("lost_start", "stuck_state"):
             k = "race|start_before_wakeup_cleared"
